@@ -59,6 +59,7 @@ func runC01(r *harness.Run) {
 		"text of run-time fault messages is not compared, only that a string prefixed chunk:line: with a line of the innermost executing statement is delivered",
 		"number->string conversions are compared only where %.14g and the shortest round-trip rendering agree",
 	}
+	runPinned(r, "C01")
 	pr.runGens(gens, append(order, korder...))
 }
 
